@@ -361,8 +361,8 @@ class SpecBDD:
         # simultaneous substitution
         return self._mk(z3.substitute(u.t, *pairs))
 
-    def rename(self, u, dvars):
-        return self.let(dict(dvars), u)
+    # no `rename`: the installed dd managers do not have it (the abstract manager
+    # offers nothing the real ones lack)
 
     def copy(self, u, other):
         if other is self:
